@@ -25,6 +25,9 @@ type Script struct {
 	//      "linger" close stdout, then wait for stdin EOF.
 	End       string `json:"end,omitempty"`
 	SkipPhase bool   `json:"skip_phase1,omitempty"` // start sending without reading phase 1
+	// Burst: write every step's bytes in ONE write before reading any reply
+	// (a pipelining plugin); replies are then read in order.
+	Burst bool `json:"burst,omitempty"`
 }
 
 type StepLog struct {
